@@ -446,7 +446,12 @@ class MementoFunction(MementoFunctionBase):
             entry = MementoFunction._global_fn_version_cache[
                 self.qualified_name_without_version
             ]
-            if entry.as_of_generation == MementoFunction._global_fn_generation:
+            # The cached version can only be trusted by an instance that has collected its own
+            # hash rules: they are what tells it whether anything changed since.
+            if (
+                entry.as_of_generation == MementoFunction._global_fn_generation
+                and self._hash_rules
+            ):
                 changed_rules = [rule for rule in self._hash_rules if rule.did_change()]
                 if len(changed_rules) > 0:
                     # Global variables or local functions may have changed since the last time
